@@ -478,7 +478,8 @@ class Model(object):
 
 def _norm_attrs(attrs, as_sets):
     if as_sets:
-        return sorted((k, sorted(set(v))) for k, v in attrs)
+        # merged features: order of values (and keys) left open, but "without repeats" is not: compare as multisets
+        return sorted((k, sorted(v)) for k, v in attrs)
     return [(k, list(v)) for k, v in attrs]
 
 
